@@ -10,7 +10,9 @@ PID = "C14"
 LEVEL = "exploration"
 RULE = ("random legal API programs on 2-3 real wormholes (any interleaving of get_*, one code call "
         "among allocate/set/input with helper calls in any order incl. misuse that must raise only "
-        "documented errors, send_message, derive_key, close() any number of times, both API styles) "
+        "documented errors, send_message, derive_key, close() any number of times, both API styles; in a "
+        "fifth of the cases the program keeps calling the API after its own close() until it observes "
+        "the closure) "
         "against the real server with reordered+duplicated `message` delivery, full replay on "
         "re-open, a real third client (crowded), welcome{error}, link cuts anywhere after the first "
         "open, tcp and (thorough) tls transport modes. Non-trivial = at least one new "
@@ -34,7 +36,13 @@ def cases(tier, seed, prep=None):
         mode = "tcp" if (q or i % 4) else "tls"
         out.append({"kind": "program", "seed": seed * 1000003 + 1400000 + i, "mode": mode,
                     "third": i % 7 == 3, "welcome_error": ("nope" if i % 23 == 11 else None),
-                    "late_code": i % 9 == 5, "mismatch": i % 11 == 6, "late_welcome_error": i % 13 == 4})
+                    "late_code": i % 9 == 5, "mismatch": i % 11 == 6, "late_welcome_error": i % 13 == 4,
+                    "after_close": i % 5 == 2})
+    for i in range(60 if q else 3000):
+        race = ["close", "close+drop", "unwelcome"][i % 3]
+        out.append({"kind": "program", "seed": seed * 1000003 + 1480000 + i, "mode": "tcp", "third": False, "welcome_error": None,
+                    "late_code": False, "mismatch": i % 4 == 3, "late_welcome_error": False, "after_close": race != "unwelcome",
+                    "prompt_race": race})
     return out
 
 
@@ -57,6 +65,18 @@ class Prog:
                        "close": rng.choice([1, 1, 2, 3]), "code2": rng.choice([0, 0, 1]),
                        "misuse": rng.choice([0, 0, 1, 2])}
         self.close_gate = rng.choice(["any", "any", "late", "late", "done"])
+        # a human at the prompt: the words may be typed only after the peer's PAKE has arrived, or late
+        self.words_gate = rng.choice(["any", "any", "pake", "late"])
+        self.words_late_at = rng.choice([60, 150])
+        race = spec.get("prompt_race")
+        if race and name == "B":
+            # directed: the words reach the wormhole in the window between "closing began" and "the
+            # application was told" - closing by the application's own close() (another task), by a
+            # welcome error on a reconnect, or by close() while the connection is down
+            self.method = "input"
+            self.words_gate = "after-closing"
+            self.close_gate = "pake" if race in ("close", "close+drop") else "never"
+            self.budget["close"] = max(self.budget["close"], 1)
         self.api_exc = []        # unexpected exceptions escaping API calls
         self.ncalls = 0
         self.late_code = spec.get("late_code") and name == "B"
@@ -76,6 +96,20 @@ class Prog:
             self.api_exc.append((self.world.step, label, tn, repr(e)[:200]))
             return None
 
+    def seen_peer_pake(self):
+        mine = self.app.w._boss._side
+        return any(m.get("type") == "message" and m.get("phase") == "pake" and m.get("side") != mine for (_, m) in self.app.inbound)
+
+    def words_gate_open(self):
+        if self.words_gate == "pake":
+            return self.world.step > 400 or self.seen_peer_pake()
+        if self.words_gate == "after-closing":
+            return any(st in ("S3_closing", "S4_closed") or inp in ("close", "rx_unwelcome", "rx_error")
+                       for (_, st, inp) in self.app.binputs) or self.world.step > 700
+        if self.words_gate == "late":
+            return self.world.step > self.words_late_at
+        return True
+
     def known_code(self):
         if self.spec.get("mismatch") and self.name == "B" and self.shared.get("code"):
             return self.shared["code"] + "-wrong"
@@ -94,7 +128,9 @@ class Prog:
             if self.budget["close"] > 0:
                 acts.append(((name, "close"), self.do_close))
             return acts
-        closing = app.close_calls > 0
+        # a program with `after_close` keeps using the API after its own close() call until it has been
+        # told that the wormhole is closed (another task of the same application, a prompt still open)
+        closing = app.close_calls > 0 and not self.spec.get("after_close")
         ALL = ("OnlyOneCodeError", "KeyFormatError")
         if not self.code_done and not closing:
             if self.method == "alloc":
@@ -128,7 +164,7 @@ class Prog:
                         self.np_chosen = True
                         self._api("choose_nameplate", lambda: h.choose_nameplate(np_))
                     acts.append(((name, "np"), f))
-                elif not self.words_chosen:
+                elif not self.words_chosen and self.words_gate_open():
                     def f():
                         self.words_chosen = True
                         self._api("choose_words", lambda: h.choose_words(words))
@@ -181,7 +217,8 @@ class Prog:
         if self.budget["close"] > 0:
             kinds = app.kinds()
             gate = (self.close_gate == "any" or (self.close_gate == "late" and "key" in kinds) or
-                    (self.close_gate == "done" and "verifier" in kinds) or self.world.step > 500)
+                    (self.close_gate == "pake" and self.seen_peer_pake()) or
+                    (self.close_gate == "done" and "verifier" in kinds) or self.world.step > (500 if self.close_gate != "never" else 800))
             if gate:
                 acts.append(((name, "close"), self.do_close))
         return acts
@@ -260,7 +297,24 @@ def run_case(spec):
         sch.faults.append((k, turn_unwelcome, "welcome error from now on"))
         sch.faults.append((k + rng.randint(1, 40), (lambda i=rng.randint(0, 1): drv.drop(i)), "drop"))
     sch.faults.sort(key=lambda f: f[0])
+    race = spec.get("prompt_race")
+    if race in ("close+drop", "unwelcome"):
+        fired = []
+        pb = drv.progs[1]
+
+        def hook():
+            if fired:
+                return
+            if race == "close+drop" and pb.app.close_calls:
+                fired.append(1)
+                drv.drop(1)
+            elif race == "unwelcome" and pb.seen_peer_pake():
+                fired.append(1)
+                world.welcome_override = {"error": "server is shutting down"}
+                drv.drop(1)
+        sch.hook = hook
     sch.run(900, until=lambda: all(p.app.closed for p in drv.progs) and len(drv.progs) >= 2)
+    sch.hook = None
     drv.third_done = True       # no new participants once the wind-down starts
     for p in drv.progs:
         if not p.app.close_calls:
@@ -330,7 +384,7 @@ def run_case(spec):
                          "never_closed_sides": sum(int(not p.app.closed) for p in drv.progs),
                          "drops": drv.drops, "third_clients": int(len(drv.progs) > 2),
                          "adv_dups": world.adversary.dups, "adv_out_of_order": world.adversary.out_of_order,
-                         "mode_" + spec.get("mode", "tcp"): 1},
+                         "mode_" + spec.get("mode", "tcp"): 1, "prompt_race_cases": int(bool(spec.get("prompt_race")))},
             "sets": {"triples": triples, "verdicts": [v for p in drv.progs for v in p.app.close_results]},
             "sample": {"spec": spec, "methods": {p.name: p.method for p in drv.progs},
                        "calls_A": drv.progs[0].app.calls[:25], "events_A": drv.progs[0].app.kinds(),
